@@ -18,6 +18,10 @@ def run(prog, rep):
     rep.attempt(lambda: M.flush_on_exit(ct, rep))
     rep.attempt(lambda: M.parse_on_enter(ct, rep))
     rep.attempt(lambda: M.size_from_fs(ct, rep))
+    # 'reading a block through the open object gives the same result as decoding the bytes stored on disk': the entry a read uses is
+    # looked up in the table itself (first entry of the type / the slot asked for), not in an index kept beside it
+    from .c11 import lookup_contract
+    rep.attempt(lookup_contract, ct, rep)
     rep.attempt(lambda: M.get_block_reads_disk(ct, rep))
     # the table written to disk re-parses to the table in memory: TdfEntry codec symmetric field by field (dates included)
     from ..codecs import Codecs
